@@ -36,7 +36,14 @@ OPTIONS = {
 }
 
 # commands that need a live connection / a running Raft node: executed only over TCP by C19 / C07
-NOT_IN_PROCESS = {"subscribe", "publish", "rconf", "unsubscribe"}
+NOT_IN_PROCESS = {"subscribe", "publish", "rconf", "unsubscribe",
+                  "verifdump"}  # verifdump: hook command, registered only under the verif build tag
+
+
+# Arguments on which the model's exact-decimal score arithmetic differs from float64 rounding
+# (more than 15 significant digits, exponent syntax): for ZADD these vectors are run on the
+# implementation for crash/hang detection only (cases named c04x_*), not compared with the model.
+OUT_OF_DOMAIN = {"zadd": {b"9223372036854775807", b"-9223372036854775808", b"9223372036854775808", b"1e400"}}
 
 
 def alphabet(name, quick):
@@ -63,12 +70,23 @@ def gen_sweep(names, tier, seed, steps_per_case=150):
     quick = tier == "quick"
     maxarity = 2 if quick else 3
     cases = []
+    xcases = []
     for name in names:
         if name in NOT_IN_PROCESS:
             continue
         cur = None
+        xcur = None
         i = 0
+        ood = OUT_OF_DOMAIN.get(name, set())
         for v in vectors(name, maxarity, quick, rnd, sample_last=600 if quick else 6000):
+            if ood and any(t in ood for t in v):
+                if xcur is None or xcur.nsteps >= steps_per_case:
+                    xcur = Case("c04x_%s_%d" % (name, len(xcases)))
+                    for p in PREPOP:
+                        xcur.cmd(p)
+                    xcases.append(xcur)
+                xcur.cmd([name.encode()] + v)
+                continue
             if cur is None or cur.nsteps >= steps_per_case:
                 cur = Case("c04_%s_%d" % (name, i))
                 i += 1
@@ -86,4 +104,4 @@ def gen_sweep(names, tier, seed, steps_per_case=150):
                 cur.dump()
         if cur is not None:
             cur.dump()
-    return cases
+    return cases, xcases
